@@ -7,6 +7,7 @@ package main
 import (
 	"bufio"
 	"encoding/binary"
+	"fmt"
 	"io"
 	"net"
 	"strings"
@@ -218,4 +219,26 @@ func (s *vfStubNsqd) serve(c net.Conn) {
 			return
 		}
 	}
+}
+
+// vfGiveUpAttempts: the built-in attempts plus those of the committed replay file (lines `tool=<tool> … attempts=N`)
+func vfGiveUpAttempts(tool string, base []uint16) []uint16 {
+	for _, l := range vfKnownLines("gives-up-after-max-attempts") {
+		if !strings.Contains(l, "tool="+tool+" ") {
+			continue
+		}
+		for _, f := range strings.Fields(l) {
+			var n uint16
+			if _, err := fmt.Sscanf(f, "attempts=%d", &n); err == nil {
+				dup := false
+				for _, b := range base {
+					dup = dup || b == n
+				}
+				if !dup {
+					base = append(base, n)
+				}
+			}
+		}
+	}
+	return base
 }
